@@ -65,14 +65,14 @@ Proof. intros. rewrite hist_push_entries by auto. apply lastn_length_le. Qed.
 (** ** What one PUBLISH does to one store *)
 Definition restricted (opts : dict) : bool := dhas opts "exclude" || dhas opts "eligible".
 
-Definition hentry_of (now : N) (pub : session) (pubid : N) (topic : string) (args : list value) (kw : dict)
+Definition hentry_of (now : N) (pub : session) (pubid : N) (opts : dict) (topic : string) (args : list value) (kw : dict)
            (disc : bool) (sst : subscription * bool) : hentry :=
-  mkHEntry (sub_id (fst sst)) pubid (event_details topic (snd sst) disc pub None) args kw now.
+  mkHEntry (sub_id (fst sst)) pubid (event_dict opts topic (snd sst) disc pub None) args kw now.
 
 Lemma pub_event_hist_at : forall lookup now pub pubid opts topic args kw ep disc f b o sst id,
     nget (b_hist (fst (pub_event lookup now pub pubid opts topic args kw ep disc f (b, o) sst))) id =
     if N.eqb (sub_id (fst sst)) id && negb (restricted opts)
-    then option_map (fun st => hist_push st (hentry_of now pub pubid topic args kw disc sst)) (nget (b_hist b) id)
+    then option_map (fun st => hist_push st (hentry_of now pub pubid opts topic args kw disc sst)) (nget (b_hist b) id)
     else nget (b_hist b) id.
 Proof.
   intros. unfold pub_event. destruct sst as [s st]. cbn [fst snd].
@@ -91,7 +91,7 @@ Lemma pub_fold_hist_at : forall lookup now pub pubid opts topic args kw ep disc 
     nget (b_hist (fst (fold_left (pub_event lookup now pub pubid opts topic args kw ep disc f) l (b, o)))) id =
     if restricted opts then nget (b_hist b) id
     else option_map (fun st => fold_left hist_push
-                        (map (hentry_of now pub pubid topic args kw disc)
+                        (map (hentry_of now pub pubid opts topic args kw disc)
                              (filter (fun sst => N.eqb (sub_id (fst sst)) id) l)) st)
                     (nget (b_hist b) id).
 Proof.
@@ -127,40 +127,47 @@ Proof.
 Qed.
 
 (** the publication is stored iff accepted, matching and unrestricted *)
-Definition stored_b (cfg : config) (t : string) (k : mkind) (opts : dict) (topic : string) : bool :=
+Definition accepted_b (cfg : config) (pub : session) (opts : dict) (topic : string) : bool :=
   valid_uri (c_strict cfg) "" topic
-  && negb (opt_bool opts "disclose_me" && negb (c_disclose cfg))
+  && negb (publish_aborts cfg pub opts topic)
+  && negb (opt_bool opts "disclose_me" && negb (c_disclose cfg)).
+
+Definition stored_b (cfg : config) (pub : session) (t : string) (k : mkind) (opts : dict) (topic : string) : bool :=
+  accepted_b cfg pub opts topic
   && matches_b k t topic
   && negb (restricted opts).
 
 Lemma publish_refused : forall cfg lookup now b pg pub req opts topic args kw,
-    valid_uri (c_strict cfg) "" topic && negb (opt_bool opts "disclose_me" && negb (c_disclose cfg)) = false ->
+    accepted_b cfg pub opts topic = false ->
     fst (fst (publish cfg lookup now b pg pub req opts topic args kw)) = b.
 Proof.
-  intros. unfold publish. destruct (valid_uri (c_strict cfg) "" topic); cbn [negb andb] in *; auto.
+  intros. unfold publish. unfold accepted_b in H.
+  destruct (valid_uri (c_strict cfg) "" topic); cbn [negb andb] in *; auto.
+  destruct (publish_aborts cfg pub opts topic); cbn [negb andb] in *; auto.
   destruct (opt_bool opts "disclose_me" && negb (c_disclose cfg)); cbn in *; [auto|discriminate].
 Qed.
 
-Lemma pub_accepted_b : forall cfg opts topic,
-    valid_uri (c_strict cfg) "" topic && negb (opt_bool opts "disclose_me" && negb (c_disclose cfg)) = true <->
-    pub_accepted cfg opts topic.
+Lemma pub_accepted_b : forall cfg pub opts topic,
+    accepted_b cfg pub opts topic = true <-> pub_accepted cfg pub opts topic.
 Proof.
-  intros. unfold pub_accepted. destruct (valid_uri (c_strict cfg) "" topic); cbn [andb]; [|split; [discriminate|intros [? _]; discriminate]].
+  intros. unfold pub_accepted, accepted_b.
+  destruct (valid_uri (c_strict cfg) "" topic); cbn [andb]; [|split; [discriminate|intros [? _]; discriminate]].
+  destruct (publish_aborts cfg pub opts topic); cbn [andb negb]; [split; [discriminate|intros (_ & ? & _); discriminate]|].
   destruct (opt_bool opts "disclose_me"); destruct (c_disclose cfg); cbn; split; auto; try discriminate.
-  intros [_ H]. discriminate H; auto.
+  intros (_ & _ & H). discriminate H; auto.
 Qed.
 
 Theorem publish_hist_at : forall cfg lookup now b pg pub req opts topic args kw id s0 st,
     broker_wf b -> nget (b_subs b) id = Some s0 -> nget (b_hist b) id = Some st ->
     nget (b_hist (fst (fst (publish cfg lookup now b pg pub req opts topic args kw)))) id =
-    Some (if stored_b cfg (sub_topic s0) (kind s0) opts topic
+    Some (if stored_b cfg pub (sub_topic s0) (kind s0) opts topic
           then hist_push st (mkHEntry id (pg + 1)
-                               (event_details topic (is_pattern (kind s0)) (opt_bool opts "disclose_me") pub None)
+                               (event_dict opts topic (is_pattern (kind s0)) (opt_bool opts "disclose_me") pub None)
                                args kw now)
           else st).
 Proof.
   intros cfg lookup now b pg pub req opts topic args kw id s0 st W Es Eh. unfold stored_b.
-  destruct (valid_uri (c_strict cfg) "" topic && negb (opt_bool opts "disclose_me" && negb (c_disclose cfg))) eqn:Hacc.
+  destruct (accepted_b cfg pub opts topic) eqn:Hacc.
   2:{ rewrite publish_refused by auto. cbn [andb]. auto. }
   apply pub_accepted_b in Hacc. rewrite publish_unfold by auto. cbn [fst andb].
   rewrite pub_fold_hist_at, Eh. destruct (restricted opts); cbn [negb]; [now rewrite andb_false_r|].
@@ -298,8 +305,8 @@ Qed.
 Definition hist_contrib (cfg : config) (id : N) (t : string) (k : mkind) (o : bop) : list hentry :=
   match o with
   | BPublish pg lookup now pub req opts topic args kw =>
-      if stored_b cfg t k opts topic
-      then [mkHEntry id (pg + 1) (event_details topic (is_pattern k) (opt_bool opts "disclose_me") pub None) args kw now]
+      if stored_b cfg pub t k opts topic
+      then [mkHEntry id (pg + 1) (event_dict opts topic (is_pattern k) (opt_bool opts "disclose_me") pub None) args kw now]
       else []
   | _ => []
   end.
@@ -331,7 +338,7 @@ Proof.
       apply publish_hist_ext in E; [|apply W]. destruct E as (E & _). rewrite E.
       exists s0. autorewrite with bproj. auto.
     + rewrite (publish_hist_at _ _ _ _ _ _ _ _ _ _ _ _ _ _ W E0 Eh). rewrite Ht0, Hk0.
-      destruct (stored_b cfg t k opts topic); [|exact Hsame].
+      destruct (stored_b cfg pub t k opts topic); [|exact Hsame].
       f_equal. rewrite <- hist_push_entries by auto. reflexivity.
 Qed.
 
@@ -374,12 +381,12 @@ Theorem restricted_never_stored : forall cfg id t k ops e,
     exists pg lookup now pub req opts topic args kw,
       In (BPublish pg lookup now pub req opts topic args kw) ops /\
       dhas opts "exclude" = false /\ dhas opts "eligible" = false /\
-      pub_accepted cfg opts topic /\ matches k t topic /\
-      e = mkHEntry id (pg + 1) (event_details topic (is_pattern k) (opt_bool opts "disclose_me") pub None) args kw now.
+      pub_accepted cfg pub opts topic /\ matches k t topic /\
+      e = mkHEntry id (pg + 1) (event_dict opts topic (is_pattern k) (opt_bool opts "disclose_me") pub None) args kw now.
 Proof.
   intros cfg id t k ops e H. unfold hist_ref in H. apply in_flat_map in H. destruct H as (o & Ho & He).
   destruct o; try destruct He. cbn [hist_contrib] in He.
-  destruct (stored_b cfg t k opts topic) eqn:S; [|destruct He]. destruct He as [<-|[]].
+  destruct (stored_b cfg pub t k opts topic) eqn:S; [|destruct He]. destruct He as [<-|[]].
   unfold stored_b in S. apply andb_prop in S. destruct S as [S Hr]. apply andb_prop in S. destruct S as [Hacc Hm].
   apply pub_accepted_b in Hacc. apply matches_b_spec in Hm.
   unfold restricted in Hr. apply negb_true_iff, orb_false_elim in Hr. destruct Hr.
